@@ -543,6 +543,8 @@ class MQTTProtocol(MQTTBaseProtocol):
         '''
         Refills the Publisher transmission window from the queue 
         '''
+        if self.state is not self.CONNECTED and self.state is not self.CONNECTING:
+            return      # closing or lost (e.g. disconnect() called from an acknowledgement callback)
         queue  = self.factory.queuePublishTx[self.addr]
         window = self.factory.windowPublish[self.addr]
         while queue:
